@@ -25,6 +25,8 @@ type EvalCtx struct {
 	visKey  Sort
 	depth   int
 	inOld   bool
+	atEntry bool
+	entrySt *State
 	stepMode bool
 	resolve func(name string, x *EvalCtx) (TV, bool) // local variable resolver (loop invariants)
 }
@@ -107,6 +109,18 @@ func (x *EvalCtx) eval(e *Expr) TV {
 		n.st = x.old
 		n.inOld = true
 		return n.eval(e.Args[0])
+	case "call":
+		if e.Name == "atentry" {
+			// value of an expression in the state just before the enclosing loop was entered
+			if x.entrySt == nil {
+				efail("atentry() outside a loop clause")
+			}
+			n := *x
+			n.st = x.entrySt
+			n.atEntry = true
+			return n.eval(e.Args[0])
+		}
+		return x.evalCall(e)
 	case "unary":
 		a := x.eval(e.Args[0])
 		if e.Name == "!" {
@@ -122,8 +136,6 @@ func (x *EvalCtx) eval(e *Expr) TV {
 		return x.evalSel(e)
 	case "index":
 		return x.evalIndex(e)
-	case "call":
-		return x.evalCall(e)
 	case "quant":
 		return x.evalQuant(e)
 	}
@@ -394,6 +406,27 @@ func (x *EvalCtx) evalCall(e *Expr) TV {
 		inner := Select(c.get(x.st, heap), slArr(s.T), ArraySort(SInt, es))
 		set := c.elemsOf(inner, slOff(s.T), slLen(s.T), es)
 		return TV{Select(set, v.T, SBool), tyBool}
+	case "unchangedMap", "sameMapAsEntry":
+		m := x.eval(e.Args[0])
+		ref := x.old
+		if e.Name == "sameMapAsEntry" {
+			if x.entrySt == nil {
+				efail("sameMapAsEntry outside a loop clause")
+			}
+			ref = x.entrySt
+		}
+		if m.Ty == nil {
+			efail("unchangedMap on untyped")
+		}
+		if _, ok := m.Ty.Underlying().(*types.Map); !ok {
+			efail("unchangedMap on non-map")
+		}
+		dom, val, ks, vs := c.mapHeaps(m.Ty)
+		r := Eq(Select(c.get(x.st, dom), m.T, ArraySort(ks, SBool)), Select(c.get(ref, dom), m.T, ArraySort(ks, SBool)))
+		if vs != SUnit {
+			r = And(r, Eq(Select(c.get(x.st, val), m.T, ArraySort(ks, vs)), Select(c.get(ref, val), m.T, ArraySort(ks, vs))))
+		}
+		return TV{r, tyBool}
 	case "content":
 		a := x.eval(e.Args[0])
 		if a.T.Sort != SSlice {
